@@ -566,3 +566,27 @@ Theorem C15_default_rule_without_helmignore :
   rules_ignore gmatch_ok [default_pat] ".gitignore" false = false.
 Proof. exact default_rule_only. Qed.
 Print Assumptions C15_default_rule_without_helmignore.
+
+(* ---------- a .helmignore with a line Helm cannot parse aborts the load ---------- *)
+(* parseRule rejects a line that is neither blank nor a comment and contains ** or is malformed for
+   filepath.Match (bad_line); Parse returns the error, and LoadDir returns it before anything is walked
+   (seeded change C15-8 dropped the whole file instead): whatever valid rules the file has besides,
+   nothing is loaded -- and helm package, which starts with LoadDir, packages nothing *)
+Theorem C15_malformed_helmignore_aborts :
+  forall (md_merge : meta -> string -> option meta) (lock_dec : string -> option (option lockv))
+         (parse_values : string -> option val) (untar : string -> tstream)
+         (sanitize : meta -> meta) (is_semver : string -> bool) (rest_valid : meta -> bool)
+         (maxt maxf : Z) (text l : string) (fuel : nat) (walk : list file),
+  In l (ignore_lines text) -> bad_line l = true ->
+  parse_ignore gmatch_err (Some text) = None /\
+  load_dir_helmignore md_merge lock_dec parse_values untar sanitize is_semver rest_valid maxt maxf (Some text) fuel walk = inl LIgnore.
+Proof. exact malformed_helmignore_aborts2. Qed.
+Print Assumptions C15_malformed_helmignore_aborts.
+
+Example C15_malformed_helmignore_aborts_ex :
+  bad_line "docs/**/*.png" = true /\ bad_line "[z-" = true /\ bad_line "a/**" = true /\ bad_line "[" = true /\
+  bad_line "x[]" = true /\ bad_line "abc\" = true /\ bad_line "  [a-  " = true /\
+  bad_line "# [z-" = false /\ bad_line "*.bak" = false /\ bad_line "secrets/" = false /\ bad_line "x*[" = false /\
+  In "docs/**/*.png" (ignore_lines mixed_text) /\ parse_ignore gmatch_err (Some mixed_text) = None.
+Proof. exact bad_line_examples. Qed.
+Print Assumptions C15_malformed_helmignore_aborts_ex.
